@@ -10,7 +10,7 @@ import random
 import numpy as np
 import torch
 
-from batchie.models.grid_helper import ConcentrationGrid
+from batchie.models.grid_helper import ConcentrationGrid, interp_01_vals
 from harness import tlc
 from harness.util import outcome
 
@@ -110,6 +110,29 @@ def run(ctx):
         if not ok:
             report("init_from_range(%s, n_grid=%d, padding=%s): grid %s is not the padded, strictly increasing grid of n_grid points per drug" % (
                 rngs, ng, pad, cg.tolist()), rp)
+    # interp_01_vals (GridInterp.tla): regular grid on [0, 1]
+    S = 16
+    r2 = ctx.tlc("GridInterp", tlc.cfg(spec="Spec", constants={"S": S, "MaxM": 6 if ctx.quick else 12, "Export": True},
+                                       invariants=["Neighbours", "WeightReproduces", "OnAGridPoint", "Exp"]), note="regular grid: all lattice values and grid sizes; export",
+                 allow_violation=False)
+    ic = r2.by_tag("interp")
+    if len(ic) < 17 * 6:
+        raise tlc.TLCError("expected at least %d exported interpolation cases, got %d" % (17 * 6, len(ic)))
+    for M in sorted({c["M"] for c in ic}):
+        part = [c for c in ic if c["M"] == M]
+        rng.shuffle(part)
+        o = outcome(lambda: interp_01_vals(torch.tensor([c["J"] / S for c in part], dtype=torch.float32), M + 1))
+        ctx.evaluations += 1
+        if o[0] == "exc":
+            report("interp_01_vals raised %s for n_grid = %d" % (o[1], M + 1), {"kind": "interp", "M": M})
+            continue
+        ku, kl, p = o[1]
+        for j, c in enumerate(part):
+            e = c["out"]
+            if int(ku[j]) != e["upper"] or int(kl[j]) != e["lower"] or abs(float(p[j]) - e["num"] / S) > 1e-5:
+                report("interp_01_vals(x = %d/16, n_grid = %d): got (upper %d, lower %d, weight %.6f), GridInterp.tla says (upper %d, lower %d, weight %d/16)" % (
+                    c["J"], M + 1, int(ku[j]), int(kl[j]), float(p[j]), e["upper"], e["lower"], e["num"]), {"kind": "interp", "case": c})
+    ctx.extra["interp_cases"] = len(ic)
     ctx.traces += len(sub)
     ctx.sample({"case": cases[len(cases) // 2]})
     ctx.extra["cases"] = len(cases)
